@@ -268,6 +268,11 @@ func readOperationPack(def Definition, repo repository.RepoData, resolvers entit
 		}
 	}
 
+	if author == nil {
+		// no "ops" entry in the tree, nothing was decoded
+		return nil, fmt.Errorf("missing %s entry in the operation pack", opsEntryName)
+	}
+
 	// Verify signature if we expect one
 	keys := author.ValidKeysAtTime(fmt.Sprintf(editClockPattern, def.Namespace), editTime)
 	if len(keys) > 0 {
